@@ -166,12 +166,25 @@ fn dtext_one(item: &J) -> J {
   let mut vs = vec![];
   for ctx in &ctxs {
     let scope: Scope = ctx.clone().into();
+    // purity monitor (C13): the caller's scope before and after, and a second evaluation of the same evaluator
+    let before = scope.to_string();
     clear_panic();
     match std::panic::catch_unwind(std::panic::AssertUnwindSafe(|| evaluator(&scope))) {
       Ok(v) => {
         let mut rec = json!({"v": vj::from_value(&v)});
         if let Some(m) = vj::null_msg(&v) {
           rec["nm"] = json!(m);
+        }
+        let after = scope.to_string();
+        if after != before {
+          rec["scope_changed"] = json!([before, after]);
+        } else if let Ok(again) = std::panic::catch_unwind(std::panic::AssertUnwindSafe(|| evaluator(&scope))) {
+          if vj::from_value(&again) != rec["v"] {
+            rec["rep_diff"] = json!({"first": rec["v"].clone(), "later": vj::from_value(&again)});
+          }
+          if scope.to_string() != before {
+            rec["scope_changed"] = json!([before, scope.to_string()]);
+          }
         }
         vs.push(rec);
       }
